@@ -183,6 +183,7 @@ HInit(T, e) ==
    cancel   |-> e.cancel,
    builtin  |-> IF "builtin" \in DOMAIN e THEN e.builtin ELSE FALSE,
    vrank    |-> IF "vrank" \in DOMAIN e THEN PairsToFn(e.vrank) ELSE <<>>,
+   vdisp    |-> IF "valid_dispatch" \in DOMAIN e THEN SeqToSet(e.valid_dispatch) ELSE {},   \* dispatchable activities (lower case)
    admitted |-> DOMAIN T.req,
    picked   |-> <<>>,          \* request -> vehicle that picked it up
    value    |-> [r \in DOMAIN T.req |-> T.req[r].value],
@@ -349,6 +350,26 @@ C09_Stacks(Hh, e) ==
         \cup {V("C09", "stack_is_generation_order", "missing", v) : v \in {v \in {x.v : x \in UNION {SeqToSet(Hh.gens[i].instrs) : i \in DOMAIN Hh.gens}} :
            v \notin DOMAIN stacks}})
 
+\* C12 inside the step pipeline: what the built-in Dispatcher emits is judged against the state the pipeline hands to the
+\* generators - the one AFTER this step's driver (shift) update.  (Range eligibility, size and optimality are decided on
+\* the dispatcher's own records, HiveMatch.)
+LowerAct(a) ==
+  CASE a = "Idle" -> "idle" [] a = "Repositioning" -> "repositioning" [] a = "DispatchTrip" -> "dispatchtrip"
+    [] a = "ServicingTrip" -> "servicingtrip" [] a = "DispatchStation" -> "dispatchstation"
+    [] a = "ChargingStation" -> "chargingstation" [] a = "ChargeQueueing" -> "chargequeueing"
+    [] a = "DispatchBase" -> "dispatchbase" [] a = "ReserveBase" -> "reservebase" [] a = "ChargingBase" -> "chargingbase"
+    [] a = "OutOfService" -> "outofservice" [] a = "DispatchPoolingTrip" -> "dispatchpoolingtrip"
+    [] OTHER -> "servicingpoolingtrip"
+C12_Gen(Hh, St, name, instrs) ==
+  IF name # "Dispatcher" \/ Hh.vdisp = {} THEN {} ELSE
+  LET trips == {i \in DOMAIN instrs : instrs[i].kind = "DispatchTrip" /\ instrs[i].v \in DOMAIN St.veh} IN
+     {V("C12", "vehicles_eligible", "pipeline/off_shift", instrs[i].v) : i \in {i \in trips : ~St.veh[instrs[i].v].avail}}
+  \cup {V("C12", "vehicles_eligible", "pipeline/activity", instrs[i].v) :
+          i \in {i \in trips : LowerAct(St.veh[instrs[i].v].act) \notin Hh.vdisp}}
+  \cup {V("C12", "requests_open", "pipeline/assigned", instrs[i].tgt) :
+          i \in {i \in trips : instrs[i].tgt \in DOMAIN St.req /\ St.req[instrs[i].tgt].disp # None}}
+  \cup {V("C12", "requests_open", "pipeline/unknown", instrs[i].tgt) : i \in {i \in trips : instrs[i].tgt \notin DOMAIN St.req}}
+
 \* the built-in generators pair vehicles only with requests / stations of their own fleets (or public ones)
 C10_Builtin(St, name, instrs) ==
   IF name \notin {"Dispatcher", "ChargingFleetManager"} THEN {} ELSE
@@ -433,6 +454,7 @@ MonStep(Hh, B, T, e) ==
   \cup (IF Has("C09") /\ e.ev = "stacks" THEN C09_Stacks(Hh, e) ELSE {})
   \cup (IF Has("C10") /\ e.ev \in {"instr", "update"} THEN C10_Step(B, T) ELSE {})
   \cup (IF Has("C10") /\ e.ev = "gen" THEN C10_Builtin(B, e.name, e.instrs) ELSE {})
+  \cup (IF Has("C12") /\ e.ev = "gen" THEN C12_Gen(Hh, B, e.name, e.instrs) ELSE {})
   \cup (IF Has("C18") /\ upd THEN C18_Step(B, T, e.v, LAMBDA a, b : Hh.vrank[a] < Hh.vrank[b], "") ELSE {})
   \cup (IF Has("C18") /\ e.ev = "instr" /\ e.v \in DOMAIN B.veh /\ e.v \in DOMAIN T.veh
         THEN C18_Step(B, T, e.v, LAMBDA a, b : Hh.vrank[a] < Hh.vrank[b], "by_instruction/") ELSE {})
